@@ -81,7 +81,7 @@ def short(x, n=300):
 # ------------------------------------------------------------------------------------------------ worlds
 from gen import pddl as G
 
-CLEAN_FEAT = dict(or_pre=False, forall_pre=False, child_first_types=False)
+CLEAN_FEAT = dict(or_pre=False, forall_pre=False)
 
 
 def draw_features(ctx, base=None, allow=("subtypes", "constants", "neg", "equality", "numeric", "when", "forall_eff")):
@@ -94,6 +94,7 @@ def draw_features(ctx, base=None, allow=("subtypes", "constants", "neg", "equali
     feat["max_objects"] = 3 + c.draw(3) if c.draw(8) else 6 + c.draw(3)
     feat["max_actions"] = 1 + c.draw(3) if c.draw(8) else 4 + c.draw(2)
     feat["long_names"] = c.draw(12) == 0
+    feat["child_first_types"] = c.draw(3) == 0  # ':types' lines written children first (forward references)
     feat.update(base or {})
     return feat
 
